@@ -50,7 +50,7 @@ def model_text(model, limit=60):
 
 
 def run_property(pid, tier="quick", seed=0, only=None, verbose=False, do_bounded=True, do_proof=True):
-    from . import verify, npmodel, selfcheck, lemmas, loops, pybuiltins, interp, solve       # load the whole engine NOW (one consistent snapshot of the files)
+    from . import core, verify, npmodel, selfcheck, lemmas, loops, pybuiltins, interp, solve       # load the whole engine NOW (one consistent snapshot of the files)
     t0 = time.time()
     pidl = pid.lower()
     violations, knowns, undecided = [], [], []
@@ -58,7 +58,9 @@ def run_property(pid, tier="quick", seed=0, only=None, verbose=False, do_bounded
           "violations": 0}
     cov = ev["coverage"]
     baseline = load_json(os.path.join(ROOT, "baseline_obligations.json"), {})
-    base_ids = set(baseline.get(pid, []))
+    KEY = core.Ctx.oid_key
+    base_ids = {KEY(i) for i in baseline.get(pid, [])}
+    base_full = {KEY(i): i for i in baseline.get(pid, [])}
     nrep = 0
     # ---------------------------------------------------------------- engine P
     contracts = []
@@ -72,6 +74,7 @@ def run_property(pid, tier="quick", seed=0, only=None, verbose=False, do_bounded
                 raise
     timeout = 30000 if tier == "quick" else 60000      # (no obligation needs more than ~10 s alone; the margin is for loaded machines)
     funcs, obl_total, obl_ok, backends, solver_time, prims, samples = {}, 0, 0, {}, 0.0, set(), []
+    stale = []
     canaries, all_oids, contract_rows, vac = [], [], [], []
     crashed = []
     for con in contracts:
@@ -128,7 +131,7 @@ def run_property(pid, tier="quick", seed=0, only=None, verbose=False, do_bounded
             if rep is not None and rep.get("reproduced") is False:
                 undecided.append("obligation %s: spurious-countermodel (real code satisfies the contract on the model's input)" % oid)
                 continue
-            if oid not in base_ids and not (rep and rep.get("reproduced")):
+            if KEY(oid) not in base_ids and not (rep and rep.get("reproduced")):
                 undecided.append("obligation %s: solver found a candidate counter-model, but the obligation was never discharged on the "
                                  "reference tree (not in baseline_obligations.json) and no failing input was reproduced" % oid)
                 continue
@@ -153,14 +156,16 @@ def run_property(pid, tier="quick", seed=0, only=None, verbose=False, do_bounded
             c["contract"] = con.name
             canaries.append(c)
             if c["status"] == "not-applicable":
-                undecided.append("canary '%s' of %s does not apply any more (%s): update the contract file" % (label, con.name, c.get("reason")))
+                # the textual pattern of this sensitivity test no longer occurs (the function was edited): that says nothing about the code -
+                # every obligation is still generated and decided - so it is reported, counted in the evidence, and does not change the verdict
+                stale.append("canary '%s' of %s does not apply any more (%s): update the contract file" % (label, con.name, c.get("reason")))
             if c["status"] == "survived":
                 undecided.append("canary '%s' of %s survived: the contract does not pin this behaviour down" % (label, con.name))
     # obligations that were discharged on the reference tree must still be generated
     # (the baseline is frozen in the thorough tier, which runs more instances of some contracts: in the quick tier only the ids of the
     # contracts that ran are expected)
     ran = {c.name for c in contracts}
-    missing = sorted(i for i in base_ids - set(all_oids) if tier == "thorough" or i.split(":", 1)[0] in ran) if (contracts and not only) else []
+    missing = sorted(base_full[i] for i in base_ids - {KEY(o) for o in all_oids} if tier == "thorough" or i.split(":", 1)[0] in ran) if (contracts and not only) else []
     for m in missing:
         undecided.append("obligation %s of the baseline was not generated on this tree" % m)
     # ---------------------------------------------------------------- engine B
@@ -233,7 +238,7 @@ def run_property(pid, tier="quick", seed=0, only=None, verbose=False, do_bounded
                                      "assumed primitive contracts: " + "; ".join(sorted(prims))],
                     "functions_under_contract": [dict(name=k, **{x: v[x] for x in ("sha256", "lineno", "decorators")}) for k, v in sorted(funcs.items())],
                     "contracts": contract_rows, "backends": backends, "solver_time_s": round(solver_time, 3),
-                    "canaries": canaries, "canaries_killed": sum(1 for c in canaries if c["status"] == "killed"),
+                    "canaries": canaries, "canaries_killed": sum(1 for c in canaries if c["status"] == "killed"), "canaries_stale": stale,
                     "vacuity": vac, "samples": samples or [{"obligation": o} for o in all_oids[:3]]})
     else:
         ev["level"] = "exploration"
@@ -340,6 +345,8 @@ def main(argv=None):
         print("  engine B (bounded): %d evaluations, %d distinct non-trivial, failures %s" % (b["evaluations"], b["distinct_nontrivial"], b.get("failures", 0)))
     for k in knowns:
         print(k)
+    for n in cov.get("canaries_stale", []):
+        print("NOTE", n)
     for u in undecided:
         print("UNDECIDED", u)
     for v in violations:
